@@ -4,7 +4,7 @@ package grandpa
 
 // C22 — GRANDPA finality is safe under a Byzantine minority.
 //
-// Monitor: N in {4,7} voters. The honest ones are real *Service instances (real round loop: the
+// Monitor: N in {4,5,6,7,8} voters (every residue class mod 3). The honest ones are real *Service instances (real round loop: the
 // finalisation handler, the voting round handler, the finalisation engine, the message tracker and the
 // message handler all run as in a node), each on its own real state.BlockState / state.GrandpaState.
 // They are wired to a seeded fake network (per recipient: PRNG-chosen delay, duplication, bounded loss,
@@ -55,23 +55,43 @@ import (
 // parameters of one execution
 
 type c22Params struct {
-	N          int     `json:"n"`
-	Byz        []int   `json:"byzantine"`
-	Parents    []int   `json:"tree_parents"`
-	Salt       uint64  `json:"salt"`
-	SetID      uint64  `json:"set_id"`
-	IntervalMs int     `json:"interval_ms"`
-	Rounds     int     `json:"rounds_target"`
-	DropPct    int     `json:"drop_pct"`
-	DupPct     int     `json:"dup_pct"`
-	MaxDelayMs int     `json:"max_delay_ms"`
-	SlowPct    int     `json:"slow_link_pct"`
-	Release    [][]int `json:"block_release_ms"` // [authority][block] ms after start; -1 never; 0 = present at start
-	NetSeed    uint64  `json:"net_seed"`
-	AdvSeed    uint64  `json:"adv_seed"`
-	Script     string  `json:"script"`                 // "" = randomised adversary, otherwise the name of a fixed scenario
-	Hold       [][]int `json:"link_hold_ms,omitempty"` // [from][to] extra delay of every honest message on that link
-	CapMs      int     `json:"wall_cap_ms"`
+	N          int       `json:"n"`
+	Byz        []int     `json:"byzantine"`
+	Parents    []int     `json:"tree_parents"`
+	Salt       uint64    `json:"salt"`
+	SetID      uint64    `json:"set_id"`
+	IntervalMs int       `json:"interval_ms"`
+	Rounds     int       `json:"rounds_target"`
+	DropPct    int       `json:"drop_pct"`
+	DupPct     int       `json:"dup_pct"`
+	MaxDelayMs int       `json:"max_delay_ms"`
+	SlowPct    int       `json:"slow_link_pct"`
+	Release    [][]int   `json:"block_release_ms"` // [authority][block] ms after start; -1 never; 0 = present at start
+	NetSeed    uint64    `json:"net_seed"`
+	AdvSeed    uint64    `json:"adv_seed"`
+	Script     string    `json:"script"`                 // "" = randomised adversary, otherwise the name of a fixed scenario
+	Hold       [][]int   `json:"link_hold_ms,omitempty"` // [from][to] extra delay of every honest message on that link
+	Split      *c22Split `json:"split,omitempty"`        // split-vote scenario (script "split-vote")
+	CapMs      int       `json:"wall_cap_ms"`
+}
+
+// c22Split describes a split-vote scenario: the honest voters are divided into two halves, each half knows
+// (at first) only its own fork above Base; the Byzantine voters equivocate towards both halves.
+type c22Split struct {
+	HalfA []int `json:"half_a"`
+	HalfB []int `json:"half_b"`
+	Base  int   `json:"base_block"`
+	TipA  int   `json:"tip_a"`
+	TipB  int   `json:"tip_b"`
+}
+
+func (sp *c22Split) inA(i int) bool {
+	for _, x := range sp.HalfA {
+		if x == i {
+			return true
+		}
+	}
+	return false
 }
 
 func (p *c22Params) isByz(i int) bool {
@@ -1069,7 +1089,7 @@ func (a *c22Adv) forgeCommits(r *vcommon.Rand, snap map[byte]map[int]*VoteMessag
 // fixed scenarios (regression corpus): the witnesses of the C18 defects (and of forged votes) embedded in a
 // running network. n=4, authority 3 is Byzantine, tree 0-1-{2-3, 4-5}.
 
-var c22ScriptNames = []string{"estimate-not-carried-over", "fork-commit-exact-two-thirds", "fork-commit-dup-authority", "fork-commit-garbage-pairs",
+var c22ScriptNames = []string{"split-vote-n5", "estimate-not-carried-over", "fork-commit-exact-two-thirds", "fork-commit-dup-authority", "fork-commit-garbage-pairs",
 	"fork-commit-non-authorities", "fork-votes-garbage-sig", "fork-votes-non-authorities"}
 
 func (a *c22Adv) runScript(name string) {
@@ -1088,6 +1108,53 @@ func (a *c22Adv) runScript(name string) {
 		c22ForkVotes(a, "garbage")
 	case "fork-votes-non-authorities":
 		c22ForkVotes(a, "outsiders")
+	case "split-vote":
+		// reactive, see splitScriptOnVote
+	}
+}
+
+// splitScriptOnVote (a.mu is held): the classic split-vote attack. When the first honest vote of a stage of a
+// round shows up, every Byzantine voter sends every honest node TWO different votes of that stage: one for an
+// anchor block that every recipient accepts (the fork point, or the recipient's finalised head) and one for the
+// tip of the fork the recipient's half is voting for. Each honest node thus registers every Byzantine voter as an
+// equivocator (an equivocator counts for every block) and sees, besides, only the votes of its own half: the
+// other half's votes name blocks it does not know yet and / or travel over held links.
+func (a *c22Adv) splitScriptOnVote(m *VoteMessage) {
+	s := a.s
+	stage := m.Message.Stage
+	if stage == primaryProposal {
+		stage = prevote
+	}
+	key := fmt.Sprintf("split/%d/%d", m.Round, stage)
+	if a.stageSeen[key] {
+		return
+	}
+	a.stageSeen[key] = true
+	round, set := m.Round, m.SetID
+	s.after(0, func() { a.playSplit(round, set, stage) })
+}
+
+func (a *c22Adv) playSplit(round, setID uint64, stage Subround) {
+	s, t, sp := a.s, a.s.tree, a.s.p.Split
+	for _, b := range s.p.Byz {
+		for _, to := range s.hon {
+			tip := sp.TipB
+			if sp.inA(to) {
+				tip = sp.TipA
+			}
+			s.mu.Lock()
+			head := s.headOf[to]
+			s.mu.Unlock()
+			anchor := sp.Base
+			if !t.IsAncestorOrEqual(head, anchor) {
+				anchor = head
+			}
+			if !t.IsAncestorOrEqual(anchor, tip) {
+				continue
+			}
+			a.sendVote(s.keys[b], -1, to, stage, t.Vote(anchor), round, setID, 0, "split-anchor", false)
+			a.sendVote(s.keys[b], -1, to, stage, t.Vote(tip), round, setID, 1, "split-tip", false)
+		}
 	}
 }
 
@@ -1306,6 +1373,8 @@ func (a *c22Adv) observeScript(from int, gm GrandpaMessage) {
 		a.estimateScriptOnVote(from, m)
 	case "fork-commit-exact-two-thirds":
 		a.exactScriptOnVote(from, m)
+	case "split-vote":
+		a.splitScriptOnVote(m)
 	}
 }
 
@@ -1315,9 +1384,8 @@ func (a *c22Adv) observeScript(from int, gm GrandpaMessage) {
 func c22GenParams(c *vcommon.Case, thorough bool) *c22Params {
 	r := c.R
 	p := &c22Params{N: 4, Salt: r.Uint64(), NetSeed: r.Uint64(), AdvSeed: r.Uint64()}
-	if r.Chance(1, 3) {
-		p.N = 7
-	}
+	// voter counts of all three residue classes mod 3 (floor(2n/3) and 2*floor(n/3) differ for n = 5, 8)
+	p.N = vcommon.Pick(r, []int{4, 4, 4, 4, 5, 5, 5, 5, 5, 6, 6, 6, 7, 7, 7, 8, 8, 8, 8, 8})
 	f := (p.N - 1) / 3
 	nb := f
 	if r.Chance(1, 8) {
@@ -1399,7 +1467,85 @@ func c22GenParams(c *vcommon.Case, thorough bool) *c22Params {
 	return p
 }
 
+// c22SplitParams builds a split-vote execution: tree = chain 0..base, then two forks of equal length; the honest
+// voters are divided as evenly as possible; each half has only its own fork at start, the other fork arrives late;
+// optionally the links between the halves are held back as well.
+func c22SplitParams(n int, byz []int, prefix, forkLen, intervalMs, lateIv int, hold bool, halfAFirst bool, seed uint64) *c22Params {
+	p := &c22Params{N: n, Byz: byz, Salt: seed ^ 0x5b11, IntervalMs: intervalMs, Rounds: 2, NetSeed: seed + 1, AdvSeed: seed + 2,
+		Script: "split-vote", MaxDelayMs: 2}
+	parents := []int{-1}
+	for i := 1; i <= prefix; i++ {
+		parents = append(parents, i-1)
+	}
+	base := prefix
+	sp := &c22Split{Base: base}
+	var forkA, forkB []int
+	last := base
+	for i := 0; i < forkLen; i++ {
+		parents = append(parents, last)
+		last = len(parents) - 1
+		forkA = append(forkA, last)
+	}
+	sp.TipA = last
+	last = base
+	for i := 0; i < forkLen; i++ {
+		parents = append(parents, last)
+		last = len(parents) - 1
+		forkB = append(forkB, last)
+	}
+	sp.TipB = last
+	p.Parents = parents
+	hon := p.honest()
+	half := len(hon) / 2
+	if halfAFirst && len(hon)%2 == 1 {
+		half++
+	}
+	sp.HalfA, sp.HalfB = append([]int{}, hon[:half]...), append([]int{}, hon[half:]...)
+	p.Split = sp
+	late := lateIv * intervalMs
+	p.Release = make([][]int, n)
+	p.Hold = make([][]int, n)
+	for i := 0; i < n; i++ {
+		p.Release[i] = make([]int, len(parents))
+		p.Hold[i] = make([]int, n)
+		other := forkA
+		if sp.inA(i) {
+			other = forkB
+		}
+		for _, b := range other {
+			p.Release[i][b] = late
+		}
+		if hold {
+			for j := 0; j < n; j++ {
+				if !p.isByz(i) && !p.isByz(j) && sp.inA(i) != sp.inA(j) {
+					p.Hold[i][j] = late
+				}
+			}
+		}
+	}
+	p.CapMs = late + 45*intervalMs
+	return p
+}
+
+// c22GenSplitParams: the seeded family of split-vote executions over voter counts of all residue classes.
+func c22GenSplitParams(c *vcommon.Case) *c22Params {
+	r := c.R
+	n := vcommon.Pick(r, []int{5, 5, 5, 8, 8, 8, 6, 4, 7, 5, 8})
+	f := (n - 1) / 3
+	perm := r.Perm(n)
+	byz := append([]int{}, perm[:f]...)
+	sort.Ints(byz)
+	p := c22SplitParams(n, byz, r.Range(1, 2), r.Range(1, 2), r.Range(20, 35), r.Range(14, 24), r.Bool(), r.Bool(), r.Uint64())
+	p.DupPct = vcommon.Pick(r, []int{0, 0, 5})
+	p.MaxDelayMs = vcommon.Pick(r, []int{0, 2, 5})
+	return p
+}
+
 func c22ScriptParams(idx int) *c22Params {
+	if c22ScriptNames[idx%len(c22ScriptNames)] == "split-vote-n5" {
+		// n=5, authority 4 Byzantine, tree 0-1-{2,3}: nodes 0,1 know only block 2, nodes 2,3 only block 3
+		return c22SplitParams(5, []int{4}, 1, 1, 25, 20, true, false, 55)
+	}
 	name := c22ScriptNames[idx%len(c22ScriptNames)]
 	p := &c22Params{N: 4, Byz: []int{3}, Parents: []int{-1, 0, 1, 2, 1, 4}, Salt: 22, IntervalMs: 25, Rounds: 2,
 		NetSeed: uint64(idx) + 1, AdvSeed: uint64(idx) + 7, Script: name, MaxDelayMs: 2} //nolint:gosec
@@ -1704,6 +1850,7 @@ func c22Execute(c *vcommon.Case, p *c22Params) (observed map[string]int) {
 		c.Count("executions_finalised_on_one_node_only", 1)
 	default:
 		c.Count("executions_finalised_on_2+_nodes", 1)
+		c.Count(fmt.Sprintf("executions_finalised_on_2+_nodes_n%d", p.N), 1)
 		c.Distinct(fmt.Sprintf("%x", fp.Sum64()))
 		if len(distinctFinal) > 1 {
 			c.Count("executions_with_2+_different_finalised_blocks", 1)
@@ -1715,8 +1862,38 @@ func c22Execute(c *vcommon.Case, p *c22Params) (observed map[string]int) {
 	if s.byzDeliv > 0 {
 		c.Count("executions_with_byzantine_deliveries", 1)
 	}
-	if p.Script != "" {
-		c.Count("script:"+p.Script, 1)
+	if sp := p.Split; sp != nil {
+		// did the situation of the attack arise: in round 1 every half pre-voted on its own fork, and the
+		// Byzantine equivocations were delivered
+		okA, okB, bad := 0, 0, 0
+		for _, vr := range votes {
+			if vr.Origin != "honest" || vr.Round != 1 || vr.Stage == byte(precommit) || vr.Block < 0 {
+				continue
+			}
+			onA := tree.IsAncestorOrEqual(vr.Block, sp.TipA) && !tree.IsAncestorOrEqual(vr.Block, sp.TipB)
+			onB := tree.IsAncestorOrEqual(vr.Block, sp.TipB) && !tree.IsAncestorOrEqual(vr.Block, sp.TipA)
+			switch {
+			case sp.inA(vr.Auth) && onA:
+				okA++
+			case !sp.inA(vr.Auth) && onB:
+				okB++
+			default:
+				bad++
+			}
+		}
+		c.Count("split_executions", 1)
+		if okA > 0 && okB > 0 && bad == 0 && s.byzDeliv > 0 {
+			c.Count("split_executions_with_honest_prevotes_split_over_both_forks", 1)
+			c.Count(fmt.Sprintf("split_executions_with_honest_prevotes_split_over_both_forks_n%d", p.N), 1)
+			observed["split_situation"] = 1
+		}
+	}
+	if p.Script != "" && !(p.Script == "split-vote" && strings.HasPrefix(c.ID, "split/")) {
+		name := p.Script
+		if name == "split-vote" {
+			name = "split-vote-n5"
+		}
+		c.Count("script:"+name, 1)
 	}
 	c.Sample(summary)
 
@@ -1896,6 +2073,12 @@ func TestVerifC22(t *testing.T) {
 	r.Floor("executions_finalised_on_2+_nodes", 12)
 	r.Floor("executions_finalised_on_2+_nodes_with_byzantine_deliveries", 8)
 	r.Floor("deliveries_byzantine", 100)
+	for _, n := range []int{4, 5, 6, 7, 8} { // every residue class of n mod 3
+		r.Floor(fmt.Sprintf("executions_finalised_on_2+_nodes_n%d", n), 2)
+	}
+	r.Floor("split_executions_with_honest_prevotes_split_over_both_forks", 6)
+	r.Floor("split_executions_with_honest_prevotes_split_over_both_forks_n5", 2)
+	r.Floor("split_executions_with_honest_prevotes_split_over_both_forks_n8", 2)
 	for _, name := range c22ScriptNames {
 		r.Floor("script:"+name, 1)
 	}
@@ -1906,7 +2089,7 @@ func TestVerifC22(t *testing.T) {
 	// a scenario that did not reach its situation (forged message not placed, or for the C22-K1 witness no
 	// conflict: a node was not where the script needs it, timing) is run again, at most 3 times; every attempt is
 	// checked like any other execution
-	needs := map[string]string{"estimate-not-carried-over": "conflicts_attributed_to_C22-K1",
+	needs := map[string]string{"split-vote": "split_situation", "estimate-not-carried-over": "conflicts_attributed_to_C22-K1",
 		"fork-commit-exact-two-thirds": "delivered:commit script-exact",
 		"fork-commit-dup-authority":    "delivered:commit script-dup", "fork-commit-garbage-pairs": "delivered:commit script-garbage",
 		"fork-commit-non-authorities": "delivered:commit script-outsiders", "fork-votes-garbage-sig": "delivered:script-garbage-sig",
@@ -1922,8 +2105,21 @@ func TestVerifC22(t *testing.T) {
 			c.Count("script_attempt_that_did_not_reach_its_situation", 1)
 		}
 	})
+	// the seeded split-vote family (n = 5, 8 over-represented; also 4, 6, 7)
+	r.Cases("split", r.Scale(8), func(c *vcommon.Case) {
+		var wg sync.WaitGroup
+		for k := 0; k < c22Batch; k++ {
+			p := c22GenSplitParams(c)
+			wg.Add(1)
+			go func() {
+				defer wg.Done()
+				c22Execute(c, p)
+			}()
+		}
+		wg.Wait()
+	})
 	// one case = a batch of executions that run side by side (an execution mostly waits for the services' timers)
-	r.Cases("sim", r.Scale(20), func(c *vcommon.Case) {
+	r.Cases("sim", r.Scale(17), func(c *vcommon.Case) {
 		var wg sync.WaitGroup
 		for k := 0; k < c22Batch; k++ {
 			p := c22GenParams(c, r.Thorough())
